@@ -55,17 +55,16 @@ impl Fmt {
             Fmt::TokFixed => "tok-fixed",
         }
     }
-    /// class used in finding signatures
+    /// class used in finding signatures: the way the data reaches the Deserialize impl. The
+    /// concrete format is part of the replayable case, not of the signature (the formats are
+    /// the environment; the call site is in palette).
     pub fn class(self) -> &'static str {
         match self {
-            Fmt::Json => "json",
-            Fmt::JsonArray => "json-array",
-            Fmt::Ron | Fmt::RonNamed => "ron",
-            Fmt::TokMap(Key::Str) | Fmt::TokMap(Key::Borrowed) | Fmt::TokMap(Key::Owned) => "tok-map/str",
-            Fmt::TokMap(Key::Bytes) => "tok-map/bytes",
-            Fmt::TokMap(Key::Index) => "tok-map/index",
-            Fmt::TokSeq => "tok-seq",
-            Fmt::TokFixed => "tok-fixed",
+            Fmt::Json | Fmt::Ron | Fmt::RonNamed => "map-form",
+            Fmt::TokMap(Key::Index) => "map-form/index-keys",
+            Fmt::TokMap(_) => "map-form",
+            Fmt::JsonArray | Fmt::TokSeq => "seq-form",
+            Fmt::TokFixed => "fixed-form",
         }
     }
     pub fn parse(s: &str) -> Option<Fmt> {
